@@ -47,25 +47,25 @@ func someCfgs(r interface{ Intn(int) int }, n int) []Cfg {
 
 func seqCases(prop, tier string, seed uint64) []Case {
 	r := newRand(subSeed(seed, prop, tier))
-	n, steps, ncfg := 160, 20, 8
+	n, steps, ncfg := 1200, 20, 12
 	if tier == "thorough" {
-		n, steps, ncfg = 3000, 40, 60
+		n, steps, ncfg = 16000, 40, 80
 	}
 	switch prop {
 	case "C01":
-		n, steps = 96, 18
+		n, steps = 600, 18
 		if tier == "thorough" {
-			n, steps = 1600, 36
+			n, steps = 6000, 36
 		}
 	case "C07":
-		n, steps = 64, 14
+		n, steps = 400, 14
 		if tier == "thorough" {
-			n, steps = 800, 30
+			n, steps = 4000, 30
 		}
 	case "C04":
-		n, steps = 120, 20
+		n, steps = 1200, 20
 		if tier == "thorough" {
-			n, steps = 2000, 40
+			n, steps = 15000, 40
 		}
 	}
 	cfgs := someCfgs(r, ncfg)
